@@ -43,8 +43,48 @@ func ParseKey(s string) (uint64, bool) {
 	return k, err == nil
 }
 
+// MaxDepth and MaxNodes bound every traversal of a Go value that came out of eino. The values of a case are
+// built from a bounded input by the superstep rule (SizeBudget); a value that contains itself, or that shares
+// sub-maps so heavily that it unfolds beyond MaxNodes, is not one of them, and walking it must not take the
+// harness process down (a stack overflow cannot be recovered): such a value is reported (Unbounded), rendered
+// as a "bad" value (FromGo) and counted as MaxNodes (SizeOfGo).
+const (
+	MaxDepth = 6000
+	MaxNodes = 1 << 20
+)
+
+// Unbounded: x is nested deeper than MaxDepth or unfolds to more than MaxNodes nodes (it contains itself, say).
+func Unbounded(x any) bool {
+	left := int64(MaxNodes)
+	return !boundedGo(x, 0, &left)
+}
+
+func boundedGo(x any, depth int, left *int64) bool {
+	*left--
+	if depth > MaxDepth || *left < 0 {
+		return false
+	}
+	m, ok := x.(M)
+	if !ok {
+		return true
+	}
+	for _, e := range m {
+		if !boundedGo(e, depth+1, left) {
+			return false
+		}
+	}
+	return true
+}
+
 // FromGo canonicalises a Go value produced by a generated graph.
 func FromGo(x any) *Val {
+	if Unbounded(x) {
+		return &Val{Kind: "bad", Bad: "a value that contains itself (or is nested deeper than " + strconv.Itoa(MaxDepth) + ")"}
+	}
+	return fromGo(x)
+}
+
+func fromGo(x any) *Val {
 	switch t := x.(type) {
 	case nil:
 		return &Val{Kind: "bad", Bad: "untyped-nil"}
@@ -62,7 +102,7 @@ func FromGo(x any) *Val {
 			if !ok {
 				return &Val{Kind: "bad", Bad: "key:" + k}
 			}
-			kvs = append(kvs, KV{n, FromGo(e)})
+			kvs = append(kvs, KV{n, fromGo(e)})
 		}
 		return MapOf(kvs...)
 	}
@@ -98,17 +138,35 @@ func (v *Val) Size() uint64 {
 	return s
 }
 
-// SizeOfGo computes Size directly on a Go value (used inside branch conditions).
+// SizeOfGo computes Size directly on a Go value (used inside branch conditions). An unbounded value (see
+// Unbounded) counts as MaxNodes.
 func SizeOfGo(x any) uint64 {
+	left := int64(MaxNodes)
+	s, ok := sizeOfGo(x, 0, &left)
+	if !ok {
+		return MaxNodes
+	}
+	return s
+}
+
+func sizeOfGo(x any, depth int, left *int64) (uint64, bool) {
+	*left--
+	if depth > MaxDepth || *left < 0 {
+		return 0, false
+	}
 	m, ok := x.(M)
 	if !ok || m == nil {
-		return 1
+		return 1, true
 	}
 	s := uint64(1)
 	for _, e := range m {
-		s += SizeOfGo(e)
+		n, ok := sizeOfGo(e, depth+1, left)
+		if !ok {
+			return 0, false
+		}
+		s += n
 	}
-	return s
+	return s, true
 }
 
 func (v *Val) Equal(w *Val) bool {
